@@ -60,7 +60,7 @@ func runC11(c *Ctx) {
 	r.Analysed["mutex_structs"] = gnames
 	r.Floor("O-1", "mutex-bearing structs", len(gs), 4)
 	fns := c.P.RepoFuncs()
-	guardedAccesses := 0
+	guardedAccesses, registryStores := 0, 0
 	for _, g := range gs {
 		short := g.Type[strings.LastIndex(g.Type, "/")+1:]
 		an := lockset.Analyze(g, fns, func(fn *ssa.Function) bool {
@@ -145,10 +145,14 @@ func runC11(c *Ctx) {
 		if g.Type == lruType {
 			c11OneSection(c, g, an)
 		}
-		if g.Type == load.ModulePath+"/internal/metrics.Collector" {
-			c11GetOrCreate(c, an, "O-4")
+		// the series registries: whichever struct in the metrics package
+		// carries the lock that guards them (the collector today; one
+		// registry per family would be the same obligation)
+		if strings.HasPrefix(g.Type, load.ModulePath+"/internal/metrics.") {
+			registryStores += c11GetOrCreate(c, an, "O-4")
 		}
 	}
+	r.Floor("O-4", "registry stores", registryStores, 4)
 	r.Floor("O-1", "guarded accesses examined", guardedAccesses, 25)
 	c11Atomics(c)
 	c11NoSharedWrites(c)
@@ -207,12 +211,12 @@ func c11OneSection(c *Ctx, g lockset.Guarded, an *lockset.Analysis) {
 	r.Floor("O-2", "exported LRUCache methods", n, 9)
 }
 
-func c11GetOrCreate(c *Ctx, an *lockset.Analysis, rule string) {
+func c11GetOrCreate(c *Ctx, an *lockset.Analysis, rule string) int {
 	r := c.R
 	n := 0
 	for _, a := range an.Accesses {
 		mu, ok := a.Instr.(*ssa.MapUpdate)
-		if !ok || !a.Write || !a.Contents {
+		if !ok || !a.Write || !a.Contents || !c11IsSeriesMap(mu.Map.Type()) {
 			continue
 		}
 		n++
@@ -235,7 +239,22 @@ func c11GetOrCreate(c *Ctx, an *lockset.Analysis, rule string) {
 		}
 		r.Check(good && a.Mode == lockset.Excl, rule, key, c.P.Pos(mu.Pos()), "store under exclusive lock after a failed re-lookup of the same key under that lock", "registry store is not protected by a re-check of the same key under the exclusive lock: two goroutines can create two metrics for one series")
 	}
-	r.Floor(rule, "registry stores", n, 4)
+	return n
+}
+
+// c11IsSeriesMap: map[string]*M with M a named type of the metrics package
+// (Counter, Gauge, Histogram, Timer — also as a type argument).
+func c11IsSeriesMap(t types.Type) bool {
+	m, ok := t.Underlying().(*types.Map)
+	if !ok {
+		return false
+	}
+	p, ok := m.Elem().Underlying().(*types.Pointer)
+	if !ok {
+		return false
+	}
+	n, ok := types.Unalias(p.Elem()).(*types.Named)
+	return ok && n.Obj().Pkg() != nil && n.Obj().Pkg().Path() == load.ModulePath+"/internal/metrics"
 }
 
 func c11Atomics(c *Ctx) {
